@@ -2,6 +2,7 @@
   C09 — no client can wedge the server or starve other clients.
 -/
 import MicroHttp.ServerSpec
+import MicroHttp.Proofs.SrvPoll
 namespace MicroHttp.C09
 open MicroHttp
 
@@ -12,11 +13,15 @@ open MicroHttp
 theorem poll_returns (s : Srv) (h : SrvInv s) (evs : List Ev) (hev : EvsOK s evs) :
     (∃ reqs, (requests s evs).2.1 = .ok reqs) ∨
     ((requests s evs).2.1 = .aborted .shutdown ∧ Ev.kill ∈ evs) := by
-  sorry
+  rcases requests_outcome s h evs hev with ⟨k, g⟩ | ⟨_, g⟩
+  · exact Or.inr ⟨g, k⟩
+  · exact Or.inl g
 
 theorem poll_ok_without_kill (s : Srv) (h : SrvInv s) (evs : List Ev) (hev : EvsOK s evs)
     (hk : Ev.kill ∉ evs) : ∃ reqs, (requests s evs).2.1 = .ok reqs := by
-  sorry
+  rcases requests_outcome s h evs hev with ⟨k, _⟩ | ⟨_, g⟩
+  · exact absurd k hk
+  · exact g
 
 /-- No early return drops work: when the poll returns normally, every event of the batch was
     handled, the returned list is the concatenation of what each event yielded, in order, and the
@@ -32,7 +37,29 @@ def stateAfter : Srv → List Ev → Srv
 theorem all_events_handled (s : Srv) (evs : List Ev) (reqs : List (Token × Request))
     (h : (requests s evs).2.1 = .ok reqs) :
     reqs = yieldsOf s evs ∧ (requests s evs).1 = (sweep (stateAfter s evs)).1 := by
-  sorry
+  have gen : ∀ (evs : List Ev) (s : Srv) (acc : List (Token × Request)) (effs : List Effect),
+      (runEvents s evs acc effs).2.2.2 = none →
+      (runEvents s evs acc effs).2.1 = acc ++ yieldsOf s evs ∧ (runEvents s evs acc effs).1 = stateAfter s evs := by
+    intro evs
+    induction evs with
+    | nil => intro s acc effs _; exact ⟨(List.append_nil acc).symm, rfl⟩
+    | cons ev evs ih =>
+      intro s acc effs hn
+      cases ha : (handleEv s ev).2.2.2 with
+      | some a => rw [runEvents_cons_abort s ev evs acc effs a ha] at hn; cases hn
+      | none =>
+        rw [runEvents_cons_ok s ev evs acc effs ha] at hn ⊢
+        obtain ⟨g1, g2⟩ := ih _ _ _ hn
+        rw [g1, g2, List.append_assoc]
+        exact ⟨rfl, rfl⟩
+  cases ha : (runEvents s evs [] []).2.2.2 with
+  | some a => rw [requests_eq_aborted s evs a ha] at h; cases h
+  | none =>
+    obtain ⟨g1, g2⟩ := gen evs s [] [] ha
+    rw [requests_eq_ok s evs ha] at h ⊢
+    simp only [PollResult.ok.injEq] at h
+    rw [← h, g1, g2]
+    exact ⟨rfl, rfl⟩
 
 /-- A connection that can no longer be written to (hang-up, failed write, end of stream) is marked
     closed with nothing left to write … -/
@@ -40,31 +67,47 @@ theorem hangup_closes (s : Srv) (fd : Nat) (fl : EvFlags) (hh : fl.hup = true) (
     (c : Client) (hc : findClient s.conns fd = some c) :
     ∃ c', findClient (handleEv s (.client fd fl rd t w)).1.conns fd = some c' ∧
       c'.state = .closed ∧ pendingWrite c'.conn = false ∧ c'.inflight = c.inflight := by
-  sorry
+  have hcfd := (findClient_some hc).2
+  subst hcfd
+  rw [handleEv_hup s c.fd fl rd t w c hc hh]
+  exact ⟨{ c with conn := clearWrite c.conn, state := .closed },
+    findClient_replace_self s.conns { c with conn := clearWrite c.conn, state := .closed } c hc,
+    rfl, pendingWrite_clearWrite c.conn, rfl⟩
 
 theorem failed_write_closes (c : Client) (w : SinkStep) (hw : w = .zero ∨ w = .fail)
     (hp : pendingWrite c.conn = true) (hI : Inv P0 c.conn) :
     (c.write w).1.state = .closed ∧ pendingWrite (c.write w).1.conn = false := by
-  sorry
+  have _ := hI
+  obtain ⟨h1, h2⟩ := tryWrite_failed c.conn w hw hp
+  rw [Client.write_eq, h1]
+  exact ⟨rfl, h2⟩
 
 /-- … and is released by the first completed poll after the application has answered everything
     that was yielded from it (C10.reaped + closed_released_when_answered). Here: a closed
     connection with no unanswered request does not survive a sweep. -/
 theorem closed_and_answered_is_swept (s : Srv) (hI : SrvInv s) (c : Client) (hc : c ∈ s.conns)
     (hcl : c.state = .closed) (h0 : c.inflight = 0) : c ∉ (sweep s).1.conns := by
-  sorry
+  intro hm
+  have hnd := (List.mem_filter.mp hm).2
+  have hnp := (hI.clients c hc).nopending (by rw [hcl]; intro e; cases e)
+  simp [Client.isDone, hcl, hnp, h0] at hnd
 
 /-- Other clients are unaffected by a misbehaving one: an event of connection `fd₁` changes
     nothing about connection `fd₂` (its parser, queues, state, interest, in-flight count). -/
 theorem others_unaffected (s : Srv) (fd₁ fd₂ : Nat) (hne : fd₁ ≠ fd₂) (fl : EvFlags) (rd : Recv) (t : List Byte) (w : SinkStep) :
     findClient (handleEv s (.client fd₁ fl rd t w)).1.conns fd₂ = findClient s.conns fd₂ := by
-  sorry
+  rcases handleEv_client_shape s fd₁ fl rd t w with h | ⟨c, c'', toks, _, hfd, _, h⟩
+  · rw [h]
+  · rw [h]
+    exact findClient_replace_ne s.conns c'' fd₂ (by rw [hfd]; exact hne)
 
 /-- A write attempt with nothing pending (stale OUT interest) is harmless: no error, the
     connection goes back to waiting for input unless it is closed (defects F2/F4 of DESIGN.md §6). -/
 theorem stale_out_is_harmless (c : Client) (w : SinkStep) (hp : pendingWrite c.conn = false) (hI : Inv P0 c.conn) :
     (c.write w).2 = [] ∧ (c.write w).1.conn = c.conn ∧
     (c.write w).1.state = (if c.state = .closed then .closed else .awaitingIn) := by
-  sorry
+  have _ := hI
+  rw [Client.write_eq, tryWrite_nopending c.conn w hp]
+  exact ⟨rfl, rfl, rfl⟩
 
 end MicroHttp.C09
